@@ -62,7 +62,8 @@ def proggen(work, mode, stats, maxlen=0, stmts=0, depth=0, mut=0, simulate=None,
 
     def feed(line):
         d = json.loads(json.loads(line))
-        t = tuple(d["t"])
+        # tokens handed over through the .cfg file keep their escapes literally (TLC's cfg parser does not unescape)
+        t = tuple(x.replace('\\"', '"').replace("\\n", "\n") for x in d["t"])
         if t not in seen and (cap is None or len(order) < cap):
             seen.add(t)
             order.append(t)
